@@ -628,6 +628,27 @@ def check_C12(ctx):
             cases.append({"op": "run", "env": env, "version": None, "root": root, "argv": argv, "_written": None})
         groups.append((start, len(cases)))
         fixed.append(start)
+    # small scope: required env-backed options listed before / after other options, lines with "--", every env subset;
+    # acceptance and bound values judged by the reference semantics
+    sd = [gen.mkopt("strings", "e", env="VE_E", sbu=True), gen.mkopt("custom", "f", custom=dict(gen.CUSTOM_FLAG), env="VE_F", sbu=True),
+          gen.mkopt("custom", "a", custom=dict(gen.CUSTOM_FLAG), sbu=True), gen.mkopt("strings", "o", sbu=True), gen.mkarg("strings", "X", sbu=True)]
+    sspecs = ["-e -a X", "-a -e X", "(-e | -a) X", "-e [-a] X...", "-e -o X", "-f -a X", "-a -f X", "-e -f -a [X]", "[-a] -e -f X...",
+              "-e -a [-o] X", "(-e -a | -a -f) X", "-e... -a X", "-a -o -e X"]
+    pieces = [["-a"], ["--"], ["x"], ["-e", "v"], ["-o", "w"], ["-ow"], ["-f"], ["-e=v"], ["y"]]
+    small = []
+    for sp in sspecs:
+        for n in (1, 2, 3):
+            for ps in itertools.product(pieces, repeat=n):
+                av = [t for p_ in ps for t in p_]
+                for env in ({}, {"VE_E": "ev"}, {"VE_F": "true"}, {"VE_E": "ev", "VE_F": "true"}):
+                    small.append({"op": "run", "env": env, "version": None, "root": gen.mkcmd("app", decls=copy.deepcopy(sd), spec=sp, policy=0), "argv": av})
+    if len(small) > ctx.scale(16000, 160000):
+        small = rng.sample(small, ctx.scale(16000, 160000))
+    number(small, start=len(cases))
+    res_small = correspond(ctx, small, ["outcome", "trace", "values"], "small scope: required env-backed options and --")
+    from props import judge_sentences
+    st_small = judge_sentences(ctx, small, res_small, "C12")
+    ctx.stream("small scope: required env-backed options and --", 0, **st_small)
     res = correspond(ctx, cases, ["outcome", "trace", "values"], "env subsets")
     pairs = 0
     for s, e in groups:
